@@ -230,8 +230,7 @@ Section Pass.
   Lemma mu_lt_fuel s d tr Q R :
     INV mx specs s d tr None None Q R -> (mu s d Q R < pass_fuel_p (mkx mx s))%nat.
   Proof.
-    intro H. unfold mu, mm, pass_fuel_p, wfuel.
-    change (pw_tbody (mkx mx s)) with (c_tb s). change (pw_workers (mkx mx s)) with (c_ws s).
+    intro H. rewrite pass_fuel_p_mkx, wfuel_mkx. unfold mu, mm.
     assert (length Q <= length (c_tb s))%nat as HQ.
     { apply nodup_bound; [apply (i_Qnd _ _ _ _ _ _ _ _ _ H)|]. intros t Ht.
       rewrite (i_tb _ _ _ _ _ _ _ _ _ H), map_length. apply (i_Qst _ _ _ _ _ _ _ _ _ H), Ht. }
@@ -244,7 +243,10 @@ Section Pass.
   Qed.
 
   Lemma pass_fuel_pos x : exists f, pass_fuel_p x = S f.
-  Proof. unfold pass_fuel_p. cbn [Nat.mul Nat.add]. eexists. reflexivity. Qed.
+  Proof.
+    assert (0 < pass_fuel_p x)%nat as H by (unfold pass_fuel_p; destruct (keep_rounds x); cbv zeta; nia).
+    destruct (pass_fuel_p x); [lia | eexists; reflexivity].
+  Qed.
 
   Lemma frame_clock s s' : frame s s' -> c_clock s' = c_clock s.
   Proof. intros [A _]. exact A. Qed.
